@@ -85,6 +85,33 @@ theorem right_bijective_onto_range (n : Nat) (E : Arr) (o : Nat) (ho : o < produ
   obtain ⟨I, hv, hp⟩ := polyR_surj E n o ho
   exact ⟨I, hv, by rw [offsetRight_eq_polyR]; exact hp⟩
 
+/-- no intermediate overflow (all index types): for a valid index tuple every intermediate value of the accumulator in
+    the Horner loop of `layout_left::mapping::operator()` (the state after `t` iterations of the loop assembled from the
+    regenerated pieces) is bounded by the final offset, hence by `required_span_size() - 1`; so whenever
+    `required_span_size()` is representable in `index_type`, so is every value the loop computes -/
+theorem offset_left_intermediate_le (n : Nat) (E I : Arr) (h : Valid n E I) (t : Nat) (ht : t + 1 ≤ n) :
+    loopFrom (Gen.left_step n I E) t (Gen.left_lo n I E) (Gen.left_init n I E) ≤ offsetLeft n E I ∧
+    offsetLeft n E I < product n E := by
+  refine ⟨?_, offset_in_range_left n E I h⟩
+  show loopFrom (Gen.left_step n I E) t 1 (I (n - 1)) ≤ _
+  rw [left_loop_inv n E I t ht, offsetLeft_eq_polyL]
+  have := polyL_suffix_le (E := E) (I := I) 0 (n - 1 - t) (t + 1) (fun k _ hk => valid_pos h k (by omega))
+  rw [Nat.zero_add] at this
+  have e : n - 1 - t + (t + 1) = n := by omega
+  rw [e] at this
+  exact this
+
+theorem offset_right_intermediate_le (n : Nat) (E I : Arr) (h : Valid n E I) (t : Nat) (ht : t + 1 ≤ n) :
+    loopFrom (Gen.right_step n I E) t (Gen.right_lo n I E) (Gen.right_init n I E) ≤ offsetRight n E I ∧
+    offsetRight n E I < product n E := by
+  refine ⟨?_, offset_in_range_right n E I h⟩
+  show loopFrom (Gen.right_step n I E) t 0 (I 0) ≤ _
+  rw [right_loop_inv n E I t, offsetRight_eq_polyR]
+  have := polyR_prefix_le (E := E) (I := I) (t + 1) (n - (t + 1)) (fun k _ hk => valid_pos h k (by omega))
+  have e : t + 1 + (n - (t + 1)) = n := by omega
+  rw [e] at this
+  exact this
+
 -- non-vacuity: a 2 x 3 x 4 index space, the index (1,2,3), a step in dimension 1, the last offset
 example : Valid 3 (arr [2,3,4]) (arr [1,2,3]) ∧ offsetLeft 3 (arr [2,3,4]) (arr [1,2,3]) = 23 ∧
     offsetRight 3 (arr [2,3,4]) (arr [1,2,3]) = 23 ∧ product 3 (arr [2,3,4]) = 24 ∧
@@ -161,6 +188,43 @@ example : ¬ DescChain (arr [2,2]) (arr [2,3]) [1,0] ∧
   refine ⟨?_, by decide⟩
   intro h
   exact absurd h.1 (by decide)
+/-- the same criterion where dimensions of extent 1 are ignored (their index is always 0, so their stride is
+    irrelevant — e.g. stride 0 is fine there): `p` lists exactly the dimensions whose extent is not 1 -/
+theorem stride_unique_of_sorted_ext1 (n : Nat) (E S I J : Arr) (hs : SortedUnique n E S)
+    (hI : Valid n E I) (hJ : Valid n E J) (h : offsetStride n S I = offsetStride n S J) : ∀ k, k < n → I k = J k := by
+  obtain ⟨p, hp, hc⟩ := hs
+  rw [offsetStride_eq_dotList_big E S I hI hp, offsetStride_eq_dotList_big E S J hJ hp] at h
+  have mem : ∀ b, b ∈ p → b < n := fun b hb => (mem_bigDims.mp ((hp.mem_iff).mp hb)).1
+  intro k hk
+  by_cases h1 : E k = 1
+  · have := hI k hk; have := hJ k hk; omega
+  · exact dotList_inj hc (fun b hb => hI b (mem b hb)) (fun b hb => hJ b (mem b hb)) h k
+      ((hp.mem_iff).mpr (mem_bigDims.mpr ⟨hk, h1⟩))
+
+/-- the criterion of `stride_unique_of_sorted` is the special case without dimensions of extent 1 … -/
+theorem sortedUnique_of_chain (n : Nat) (E S : Arr) (p : List Nat) (hp : p.Perm (List.range n))
+    (hc : DescChain E S p) (h1 : ∀ k, k < n → E k ≠ 1) : SortedUnique n E S := by
+  refine ⟨p, ?_, hc⟩
+  have : bigDims n E = List.range n := by
+    unfold bigDims
+    rw [List.filter_eq_self]
+    intro a ha
+    simpa using h1 a (List.mem_range.mp ha)
+  rw [this]; exact hp
+
+-- … and the new one accepts e.g. extents (3,1,2) with strides (2,0,1): dimension 1 has stride 0
+example : SortedUnique 3 (arr [3,1,2]) (arr [2,0,1]) ∧ offsetStride 3 (arr [2,0,1]) (arr [2,0,1]) = 5 ∧
+    requiredSpanStride 3 (arr [3,1,2]) (arr [2,0,1]) = 6 :=
+  ⟨⟨[0,2], by decide, by decide, by decide⟩, by decide, by decide⟩
+
+/-- no intermediate overflow: every summand of the fold expression of `layout_stride::mapping::operator()` is bounded by
+    the offset, which is below `required_span_size()` -/
+theorem offset_stride_term_le (n : Nat) (E S I : Arr) (h : Valid n E I) (r : Nat) (hr : r < n) :
+    I r * S r ≤ offsetStride n S I ∧ offsetStride n S I < requiredSpanStride n E S := by
+  refine ⟨?_, offset_in_range_stride n E S I h⟩
+  rw [offsetStride_eq]
+  exact sumTo_term_le hr (fun k => I k * S k)
+
 -- an extent 0 gives span 0, rank 0 gives span 1
 example : requiredSpanStride 2 (arr [3,0]) (arr [1,3]) = 0 ∧ requiredSpanStride 0 (arr []) (arr []) = 1 := by decide
 
@@ -192,6 +256,21 @@ theorem offset_injective (m : Mapping) (I J : Arr)
   · exact offset_injective_right rank ext I J hI hJ h
   · obtain ⟨p, hp, hc⟩ := hu rfl
     exact stride_unique_of_sorted rank ext str I J p hp hc hI hJ h
+
+/-- uniqueness of the mappings the property speaks about, as one predicate: left/right always, strided under the
+    sorted-stride criterion that ignores dimensions of extent 1.  (`InjOn m`: valid index tuples with equal offsets agree
+    below the rank.)  The theorems about views and arrays below assume only `InjOn`, i.e. they hold for EVERY stride
+    vector that makes the mapping unique, not only for those recognised by the criterion. -/
+theorem mapping_unique (m : Mapping) (hu : m.lay = .stride → SortedUnique m.rank m.ext m.str) : InjOn m := by
+  intro I J hI hJ h
+  cases m with | mk lay rank ext str =>
+  cases lay
+  · exact offset_injective_left rank ext I J hI hJ h
+  · exact offset_injective_right rank ext I J hI hJ h
+  · exact stride_unique_of_sorted_ext1 rank ext str I J (hu rfl) hI hJ h
+
+-- a unique strided mapping outside the criterion (extents (2,2), strides (2,3)) still satisfies `InjOn` (checked on
+-- its four index tuples above); `InjOn` is the hypothesis used from here on
 
 /-! ## conversions between layouts and extents types -/
 
@@ -307,6 +386,64 @@ theorem convert_left_right (n : Nat) (hn : n ≤ 1) (E I : Arr) :
     subst this
     rw [strideLeft_eq, strideRight_eq]; rfl
 
+/-- ALL converting constructors between the three mapping types at once (`Mapping.convertTo` = the constructor that
+    exists for the pair of layouts, `none` if it does not exist or one of its assertions fails): the converted mapping
+    has the requested layout, the same rank and extents, computes the same offset for EVERY index tuple and requires
+    the same span -/
+theorem convertTo_preserves (m m' : Mapping) (t : Layout) (h : m.convertTo t = some m') :
+    m'.lay = t ∧ m'.rank = m.rank ∧ m'.ext = m.ext ∧ (∀ I, m'.offset I = m.offset I) ∧
+    m'.requiredSpan = m.requiredSpan := by
+  cases m with | mk lay rank ext str =>
+  cases lay <;> cases t
+  · -- left → left
+    cases h; exact ⟨rfl, rfl, rfl, fun _ => rfl, rfl⟩
+  · -- left → right (rank ≤ 1)
+    simp only [Mapping.convertTo] at h
+    split at h
+    · rename_i hr
+      cases h
+      exact ⟨rfl, rfl, rfl, fun I => ((convert_left_right rank hr ext I).1).symm, rfl⟩
+    · cases h
+  · -- left → stride
+    cases h
+    refine ⟨rfl, rfl, rfl, fun I => (convert_preserves_left rank ext).1 I, (convert_preserves_left rank ext).2.1⟩
+  · -- right → left (rank ≤ 1)
+    simp only [Mapping.convertTo] at h
+    split at h
+    · rename_i hr
+      cases h
+      exact ⟨rfl, rfl, rfl, fun I => (convert_left_right rank hr ext I).1, rfl⟩
+    · cases h
+  · -- right → right
+    cases h; exact ⟨rfl, rfl, rfl, fun _ => rfl, rfl⟩
+  · -- right → stride
+    cases h
+    refine ⟨rfl, rfl, rfl, fun I => (convert_preserves_right rank ext).1 I, (convert_preserves_right rank ext).2.1⟩
+  · -- stride → left (assertions of the constructor hold)
+    simp only [Mapping.convertTo] at h
+    split at h
+    · rename_i hc
+      cases h
+      have hs := (checkFromStrideLeft_iff rank ext str).mp hc
+      refine ⟨rfl, rfl, rfl, fun I => (convert_from_stride_preserves rank ext str).1 hc I, ?_⟩
+      show product rank ext = requiredSpanStride rank ext str
+      rw [requiredSpanStride_congr (F := ext) (T := fun r => strideLeft rank ext r) (fun _ _ => rfl) hs]
+      exact ((convert_preserves_left rank ext).2.1).symm
+    · cases h
+  · -- stride → right
+    simp only [Mapping.convertTo] at h
+    split at h
+    · rename_i hc
+      cases h
+      have hs := (checkFromStrideRight_iff rank ext str).mp hc
+      refine ⟨rfl, rfl, rfl, fun I => (convert_from_stride_preserves rank ext str).2 hc I, ?_⟩
+      show product rank ext = requiredSpanStride rank ext str
+      rw [requiredSpanStride_congr (F := ext) (T := fun r => strideRight rank ext r) (fun _ _ => rfl) hs]
+      exact ((convert_preserves_right rank ext).2.1).symm
+    · cases h
+  · -- stride → stride: the strides are copied
+    cases h; exact ⟨rfl, rfl, rfl, fun _ => rfl, rfl⟩
+
 example : ((Mapping.toStride ⟨.left, 3, arr [2,3,4], fun _ => 0⟩).convertTo .left).map (·.offset (arr [1,2,3])) = some 23 ∧
     (Mapping.toStride ⟨.left, 3, arr [2,3,4], fun _ => 0⟩).str 2 = 6 ∧
     (Mapping.toStride ⟨.left, 3, arr [2,3,4], fun _ => 0⟩).offset (arr [1,2,3]) = 23 := by decide
@@ -344,6 +481,56 @@ theorem convert_extents_preserves (q : Pattern) (o e : Extents) (hq : compatible
     simp [Extents.toList, List.getD_eq_getElem?_getD, hr]
   · cases he
 
+/-- … hence the mapping over the converted extents (`mapping(const mapping<OtherExtents>&)` of all three layouts:
+    `extents_(m.extents())`, strides copied) has the same rank, computes the same offset for EVERY index tuple and requires
+    the same span -/
+theorem convert_extents_preserves_addressing (q : Pattern) (o e : Extents) (hq : compatible q o.toList = true)
+    (he : Extents.convert q o = some e) (lay : Layout) (S : Arr) :
+    e.rank = o.rank ∧
+    (∀ I, (Mapping.mk lay e.rank e.extent S).offset I = (Mapping.mk lay o.rank o.extent S).offset I) ∧
+    (Mapping.mk lay e.rank e.extent S).requiredSpan = (Mapping.mk lay o.rank o.extent S).requiredSpan := by
+  have hext := convert_extents_preserves q o e hq he
+  have hrank : e.rank = o.rank := by
+    unfold Extents.convert at he
+    split at he
+    · rename_i hlen
+      show e.pat.length = o.rank
+      rw [initDynamic_pat he]; exact hlen
+    · cases he
+  refine ⟨hrank, ?_, ?_⟩
+  · intro I
+    rw [hrank]
+    cases lay
+    · show offsetLeft o.rank e.extent I = offsetLeft o.rank o.extent I
+      rw [offsetLeft_eq_polyL, offsetLeft_eq_polyL]
+      exact polyL_congr_ext (fun k _ hk => hext k (by omega))
+    · show offsetRight o.rank e.extent I = offsetRight o.rank o.extent I
+      rw [offsetRight_eq_polyR, offsetRight_eq_polyR]
+      exact polyR_congr_ext hext
+    · rfl
+  · rw [hrank]
+    cases lay
+    · show product o.rank e.extent = product o.rank o.extent
+      rw [product_eq, product_eq]
+      exact prodFrom_congr (fun k _ hk => hext k (by omega))
+    · show product o.rank e.extent = product o.rank o.extent
+      rw [product_eq, product_eq]
+      exact prodFrom_congr (fun k _ hk => hext k (by omega))
+    · exact requiredSpanStride_congr hext (fun _ _ => rfl)
+
+/-- value-initialised extents (`E{}`; used by the default constructors of mappings, views and arrays): static extents
+    as declared, every dynamic extent 0 — so a default-constructed view/array with a dynamic extent is empty -/
+theorem extents_default (p : Pattern) (r : Nat) (hr : r < p.length) :
+    (∀ s, p[r]? = some (some s) → (Extents.dflt p).extent r = s) ∧
+    (p[r]? = some none → (Extents.dflt p).extent r = 0 ∧ mdSize p.length (Extents.dflt p).extent = 0) := by
+  refine ⟨fun s h => extent_static (Extents.dflt p) r s h, fun h => ?_⟩
+  have h0 := extent_default_dynamic p r hr h
+  refine ⟨h0, ?_⟩
+  rw [mdSize_eq, prodFrom_eq_zero_iff]
+  exact ⟨r, Nat.zero_le _, by omega, h0⟩
+
+example : (Extents.dflt [some 2, none, some 3]).toList = [2,0,3] := by decide
+
 -- non-vacuity: extents<I, 2, dyn, 3, dyn> from (2,5,3,7) and from the dynamic values (5,7)
 example : makeDynamicIndex [some 2, none, some 3, none] = [0,0,1,1,2] ∧
     (initDynamic [some 2, none, some 3, none] [2,5,3,7]).map (·.toList) = some [2,5,3,7] ∧
@@ -371,7 +558,23 @@ theorem mdspan_access_in_bounds (m : Mapping) (data : List Int) (hd : m.required
   exact ⟨data[m.offset I], by simp [Md.get?, List.getElem?_eq_getElem this]⟩
 
 /-- exactly the designated element: writing at `I` is read back at `I` and leaves the element of every other valid
-    index `J` untouched (for mappings that are unique) -/
+    index `J` untouched — for EVERY unique mapping (any layout, any stride vector making the mapping unique) over
+    storage of at least `required_span_size()` elements (views over foreign storage, arrays built from a container) -/
+theorem md_write_read_unique (a : Md) (I J : Arr) (v : Int) (hu : InjOn a.map)
+    (hd : a.map.requiredSpan ≤ a.data.length) (hI : Valid a.map.rank a.map.ext I) (hJ : Valid a.map.rank a.map.ext J) :
+    (a.set I v).get? I = some v ∧ ((∃ k, k < a.map.rank ∧ I k ≠ J k) → (a.set I v).get? J = a.get? J) ∧
+    (a.set I v).data.length = a.data.length := by
+  have hr := offset_in_range a.map I hI
+  refine ⟨?_, ?_, by simp [Md.set]⟩
+  · simp only [Md.set, Md.get?]
+    exact getElem?_set_self' _ _ _ (by omega)
+  · rintro ⟨k, hk, hne⟩
+    simp only [Md.set, Md.get?]
+    apply getElem?_set_ne'
+    intro heq
+    exact hne (hu I J hI hJ heq k hk)
+
+/-- the same with the uniqueness supplied by the criterion of `offset_injective` -/
 theorem md_write_read (a : Md) (I J : Arr) (v : Int)
     (hu : a.map.lay = .stride → ∃ p : List Nat, p.Perm (List.range a.map.rank) ∧ DescChain a.map.ext a.map.str p)
     (hd : a.map.requiredSpan ≤ a.data.length) (hI : Valid a.map.rank a.map.ext I) (hJ : Valid a.map.rank a.map.ext J) :
@@ -437,6 +640,40 @@ theorem mdarray_from_mdspan_elements (m : Mapping) (hm : m.lay ≠ .stride) (oth
 
 example : (Md.fromMdspan ⟨.left, 2, arr [2,3], fun _ => 0⟩ ⟨⟨.right, 2, arr [2,3], fun _ => 0⟩, [10,11,12,13,14,15]⟩).data
     = [10,13,11,14,12,15] := by decide
+
+/-- the container of an array built from a view has `other.size()` elements, which is exactly the span its (left/right)
+    mapping requires: every later access at a valid index is inside the container -/
+theorem mdarray_from_mdspan_container (m : Mapping) (hm : m.lay ≠ .stride) (other : Md)
+    (hrank : other.map.rank = m.rank) (hext : ∀ k, k < m.rank → other.map.ext k = m.ext k) :
+    (Md.fromMdspan m other).data.length = mdSize other.map.rank other.map.ext ∧
+    (Md.fromMdspan m other).data.length = m.requiredSpan ∧ (Md.fromMdspan m other).map = m ∧
+    ∀ I, Valid m.rank m.ext I → m.offset I < (Md.fromMdspan m other).data.length := by
+  have hlen : (Md.fromMdspan m other).data.length = mdSize other.map.rank other.map.ext := by
+    unfold Md.fromMdspan
+    rw [initFromMdspan_eq, initFold_length, List.length_replicate]
+  have hreq : mdSize other.map.rank other.map.ext = m.requiredSpan := by
+    rw [mdSize_eq, hrank, prodFrom_congr (fun k _ hk => hext k (by simpa using hk))]
+    cases m with | mk lay rank ext str =>
+    cases lay
+    · show _ = product rank ext; rw [product_eq]
+    · show _ = product rank ext; rw [product_eq]
+    · exact absurd rfl hm
+  refine ⟨hlen, by rw [hlen, hreq], ?_, fun I hI => by rw [hlen, hreq]; exact offset_in_range m I hI⟩
+  unfold Md.fromMdspan
+  rw [initFromMdspan_eq, initFold_map]
+
+/-- conversions of views refer to equal elements: a view whose mapping was converted by any of the mapping
+    constructors (`mdspan(const mdspan<…>&)`: same data handle, `mapping_type(other.mapping())`) reads, at every index
+    tuple, the element the original view reads -/
+theorem mdspan_convert_elements (a : Md) (t : Layout) (m' : Mapping) (h : a.map.convertTo t = some m') (I : Arr) :
+    (Md.mk m' a.data).get? I = a.get? I := by
+  simp only [Md.get?]
+  rw [(convertTo_preserves a.map m' t h).2.2.2.1 I]
+
+/-- sizes agree between the two classes: `mdarray::size()` = `mdspan::size()` = product of the extents (both loops are
+    regenerated from their sources) -/
+theorem mdarray_size_consistent (n : Nat) (E : Arr) : mdarraySize n E = mdSize n E ∧ mdarraySize n E = prodFrom E 0 n := by
+  rw [mdarraySize_eq, mdSize_eq]; exact ⟨rfl, rfl⟩
 
 /-! ## span sub-views -/
 
@@ -507,6 +744,49 @@ theorem span_elems_size {α : Type} (mem : List α) (s : Span) (h : s.off + s.si
   split
   · rename_i hi; rw [elems_getElem? _ _ _ hi]
   · rfl
+
+/-- every single sub-view operation stays inside its parent -/
+theorem span_apply_inside (s t : Span) (op : SpanOp) (h : s.apply op = some t) :
+    s.off ≤ t.off ∧ t.off + t.size ≤ s.off + s.size := by
+  cases op with
+  | first c =>
+    obtain ⟨h1, h2, h3, _⟩ := (first_last_elements ([] : List Nat) s t c).1 h
+    omega
+  | last c =>
+    obtain ⟨h1, h2, h3, _⟩ := (first_last_elements ([] : List Nat) s t c).2 h
+    omega
+  | sub o c =>
+    obtain ⟨h1, h2, _⟩ := subspan_elements ([] : List Nat) s t o c h
+    exact ⟨h1, h2⟩
+
+/-- for ALL histories of `first`/`last`/`subspan` operations (each applied to the result of the previous one, every
+    asserted precondition holding): the final span lies inside the initial one, and its i-th element is the element
+    of the initial span at the accumulated offset -/
+theorem span_history {α : Type} (mem : List α) (ops : List SpanOp) (s t : Span) (h : s.run ops = some t) :
+    s.off ≤ t.off ∧ t.off + t.size ≤ s.off + s.size ∧
+    ∀ i, i < t.size → (t.elems mem)[i]? = (s.elems mem)[(t.off - s.off) + i]? := by
+  have inside : ∀ (ops : List SpanOp) (s t : Span), s.run ops = some t → s.off ≤ t.off ∧ t.off + t.size ≤ s.off + s.size := by
+    intro ops
+    induction ops with
+    | nil => intro s t h; cases h; exact ⟨Nat.le_refl _, Nat.le_refl _⟩
+    | cons op ops ih =>
+      intro s t h
+      simp only [Span.run] at h
+      cases hu : s.apply op with
+      | none => rw [hu] at h; cases h
+      | some u =>
+        rw [hu] at h
+        have h1 := span_apply_inside s u op hu
+        have h2 := ih u t h
+        omega
+  obtain ⟨h1, h2⟩ := inside ops s t h
+  refine ⟨h1, h2, ?_⟩
+  intro i hi
+  rw [elems_getElem? _ _ _ hi, elems_getElem? _ _ _ (by omega)]
+  congr 1; omega
+
+example : (Span.mk 0 9).run [.sub 1 (some 6), .last 4, .first 2, .sub 1 none] = some ⟨4, 1⟩ ∧
+    (Span.mk 0 9).run [.sub 1 (some 6), .last 7] = none := by decide
 
 example : (Span.mk 0 6).subspan 1 (some 4) = some ⟨1, 4⟩ ∧ (Span.mk 1 4).subspan 2 none = some ⟨3, 2⟩ ∧
     (Span.mk 3 2).elems [10,11,12,13,14,15] = [13,14] ∧ (Span.mk 0 6).subspan 3 (some 4) = none ∧
